@@ -178,6 +178,16 @@ func New(prog *ssa.Program, pkgs []*packages.Package, opt Options) (*Engine, err
 	e.S = s
 	e.intr = map[string]Intrinsic{}
 	registerIntrinsics(e)
+	// library functions built on reflection are run from models written in Go (vfnd/nd.go) whose
+	// only non-Go parts are two intrinsics (length of / swap within a slice held in an interface)
+	if nd := prog.ImportedPackage(NDPkg); nd != nil {
+		for lib, model := range map[string]string{"sort.SliceStable": "ModelSortSliceStable", "sort.Slice": "ModelSortSliceStable",
+			"sort.SliceIsSorted": "ModelSliceIsSorted"} {
+			if f := nd.Func(model); f != nil {
+				e.hooks[lib] = Func{Fn: f}
+			}
+		}
+	}
 	return e, nil
 }
 
